@@ -34,7 +34,18 @@ pub fn w2_shape(s: &Spec) -> bool {
 /// A CachedSource above a W2 shape: its replay re-derives chunks from a map
 /// built with the garbled columns (second signature of the same root cause).
 pub fn w2_cached_above(s: &Spec) -> bool {
-  s.any(&|n| matches!(n, Spec::Cached(i) if w2_shape(i)))
+  s.any(&|n| matches!(n, Spec::Cached(i) if unit_mix(i)))
+}
+
+/// A subtree whose streamed positions can mix column units for non-ASCII text:
+/// a SourceMapSource with non-ASCII text (its splitter counts chars while its own end
+/// position, ConcatSource offsets and OriginalSource tokens count bytes), or the W2 shape.
+pub fn unit_mix(s: &Spec) -> bool {
+  w2_shape(s)
+    || s.any(&|n| match n {
+      Spec::Sms { text, .. } | Spec::SmsInner { text, .. } => !text.is_ascii(),
+      _ => false,
+    })
 }
 
 /// The only failure tolerated inside the W2 shape: an arithmetic-overflow
